@@ -132,7 +132,7 @@ def make_registry_point(g, idx, name, h, nd):
             return self is not other
     RegistryPoint._h = h        # needed while the base __init__ registers the instance
     rp = RegistryPoint(multi_output=bool(nd.get("multi_output")), filterable=bool(nd.get("filterable")),
-                       raw=bool(nd.get("raw")))
+                       raw=bool(nd.get("raw")), prio=int(nd.get("prio", 0)))
     rp._h = h
     rp.__name__ = name
     rp.__qualname__ = name
